@@ -16,6 +16,7 @@ import (
 	"sync"
 	"time"
 
+	corev3 "github.com/envoyproxy/go-control-plane/envoy/config/core/v3"
 	endpointv3 "github.com/envoyproxy/go-control-plane/envoy/config/endpoint/v3"
 	"google.golang.org/protobuf/encoding/prototext"
 	"google.golang.org/protobuf/proto"
@@ -84,6 +85,7 @@ var proxies = []proxySpec{
 
 func newClient(p proxySpec, delta bool, suffix string) *envoyclient.Client {
 	meta := map[string]any{"ISTIO_VERSION": "1.28.0", "CLUSTER_ID": "Kubernetes"}
+	loc := map[string]string{"client-a": "r1/z1", "client-b": "r2/z1"}[p.name]
 	if len(p.labels) > 0 {
 		l := map[string]any{}
 		for k, v := range p.labels {
@@ -95,7 +97,12 @@ func newClient(p proxySpec, delta bool, suffix string) *envoyclient.Client {
 	if delta {
 		kind = "delta"
 	}
-	return envoyclient.New(p.name+"/"+kind+suffix, xdsshim.Node(p.ptype, p.ip, p.name, p.ns, meta), delta)
+	n := xdsshim.Node(p.ptype, p.ip, p.name, p.ns, meta)
+	if loc != "" {
+		parts := strings.Split(loc, "/")
+		n.Locality = &corev3.Locality{Region: parts[0], Zone: parts[1]}
+	}
+	return envoyclient.New(p.name+"/"+kind+suffix, n, delta)
 }
 
 // ---------------------------------------------------------------------------------------
@@ -474,6 +481,12 @@ func (w *world) checkAgainstFresh(s *server, clients []*envoyclient.Client, pidx
 			return compared, false
 		}
 		held3 := cl.Snapshot()
+		svcKeyDropped := false
+		for _, d := range diffs {
+			if s.causeOf(proxies[pidx[i]], d.Type, d.Name) != "unknown" {
+				svcKeyDropped = true
+			}
+		}
 		for _, d := range diffs {
 			t, n := d.Type, d.Name
 			r1, r2, r3, rf := held[t][n], held2[t][n], held3[t][n], fresh[pidx[i]][t][n]
@@ -491,11 +504,14 @@ func (w *world) checkAgainstFresh(s *server, clients []*envoyclient.Client, pidx
 			if same(r2, rf) {
 				// the client held something else until a forced push made the server resend it
 				cause := s.causeOf(proxies[pidx[i]], t, n)
+				if cause == "unknown" && svcKeyDropped && (t == envoyclient.LDS || t == envoyclient.RDS) {
+					cause = "co-occurs-with-service-key-dropped-by-proxy-dependency-filter"
+				}
 				ckey := "cause=" + cause
 				if cause == "unknown" {
 					ckey += ":changed=" + w.changedKinds()
 				}
-				c.Violation(fmt.Sprintf("%s:stale-until-forced-push:%s:proxy=%s:client=%s:%s:%s", prefix, envoyclient.Short(t), proxies[pidx[i]].ptype, protoOf(cl), whatKey(d.What), ckey),
+				c.Violation(fmt.Sprintf("%s:stale-until-forced-push:%s:%s:%s:proxy=%s:client=%s", prefix, ckey, whatKey(d.What), envoyclient.Short(t), proxies[pidx[i]].ptype, protoOf(cl)),
 					fmt.Sprintf("%s client %s: %s; a forced push brings it to the fresh state, so a push that should have carried it was skipped or narrowed. %s. diff: %s",
 						prefix, cl.Name, d, ctxInfo, firstTextDiff(resourceText(t, r1), resourceText(t, rf))),
 					map[string]any{"client": cl.Name, "scenario": w.scenInfo[cl.Name], "resource": d.String(), "history": histText(w.hist, w.applied), "context": ctxInfo})
@@ -681,7 +697,7 @@ func runHistories(c *vh.Ctx, c01, c03 bool) {
 								if cause == "unknown" {
 									ckey += ":changed=" + kindsOf(b)
 								}
-								c.Violation(fmt.Sprintf("c03:delta-differs-from-sotw:%s:proxy=%s:%s:%s", envoyclient.Short(d.Type), proxies[pi].ptype, whatKey2(d.What), ckey),
+								c.Violation(fmt.Sprintf("c03:delta-differs-from-sotw:%s:%s:%s:proxy=%s", ckey, whatKey2(d.What), envoyclient.Short(d.Type), proxies[pi].ptype),
 									fmt.Sprintf("after batch %d the delta client of %s and its SotW twin disagree: %s; diff: %s", bi, proxies[pi].name, d,
 										firstTextDiff(resourceText(d.Type, hd[d.Type][d.Name]), resourceText(d.Type, hs[d.Type][d.Name]))),
 									map[string]any{"proxy": proxies[pi].name, "resource": d.String(), "history": histText(hist, bi+1)})
